@@ -171,6 +171,8 @@ where
                                 symmetry,
                             );
 
+                            #[cfg(feature = "getong_stateright_verif")]
+                            crate::verif::yield_point("simulation:after_trace");
                             // Check whether we have found everything.
                             // All threads should reach this check and have the same result,
                             // leading them all to shut down together.
